@@ -105,6 +105,11 @@ Proof. exact (mean_row_rotation row w d). Qed.
 Theorem C19_mean_all_equal a n w : 0 < wtot n w -> mean_row ROps (repeat a n) w = wrap ROps a.
 Proof. exact (mean_row_all_equal a n w). Qed.
 
+(* the same on a whole matrix whose row i holds cols copies of a_i *)
+Theorem C19_mean_all_equal_matrix cols (al : list R) w : cols <> 1%nat -> 0 < wtot cols w ->
+  dir_mean ROps cols (map (fun a => repeat a cols) al) w = map (wrap ROps) al.
+Proof. exact (mean_all_equal_matrix cols al w). Qed.
+
 Theorem C19_mean_all_equal_in_range a n w : 0 < wtot n w -> - PI < a <= PI ->
   mean_row ROps (repeat a n) w = a.
 Proof. exact (mean_row_all_equal_in_range a n w). Qed.
@@ -152,6 +157,7 @@ Print Assumptions C19_mean_shift.
 Print Assumptions C19_mean_shift_single_column.
 Print Assumptions C19_mean_rotation.
 Print Assumptions C19_mean_all_equal.
+Print Assumptions C19_mean_all_equal_matrix.
 Print Assumptions C19_mean_all_equal_in_range.
 Print Assumptions C19_mean_all_equal_single_column.
 Print Assumptions C19_mean_in_arc.
